@@ -43,7 +43,7 @@ RULE = (
     "unwinds, with and without an older entry in place, plus OSError at the same points; (b) every truncation offset of a "
     "stored entry, zero-length, directory in place, stale source, entry of another name, five foreign magic headers with a "
     "payload that renders differently, trailing garbage; (c) all histories ending in a load, of length <= 4 (quick) / <= 5 "
-    "(thorough), over {load(env0|env1, a|b), modify(a|b), clear} for 4 equally configured pairs (one with two file-system "
+    "(thorough; <= 6 for four of the pairs), over {load(env0|env1, a|b), modify(a|b), clear} for 4 equally configured pairs (one with two file-system "
     "loaders serving the same name from different roots) and 10 pairs differing in one compile-relevant option, plus "
     "Hypothesis-generated long histories; (d) MemcachedBytecodeCache over a fake client with per-call fault schedules. "
     "Non-trivial = some judged load happened while an entry for the same key existed in some (valid, damaged, stale, "
@@ -842,7 +842,7 @@ STRUCT_POINTS = [["tmp_before"], ["tmp_after"], ["close_after"], ["replace_befor
 
 EQUAL_PAIRS = [
     (spec(), spec(), {"a": T_MAIN, "b": T_MAIN}),
-    (spec("fsA"), spec("fsB"), {"a": T_ERR, "b": T_MAIN}),
+    (spec("fsA"), spec("fsB"), {"a": T_ERR, "b": T_ERR}),
     (spec(autoescape=True, enable_async=True, trim_blocks=True), spec(autoescape=True, enable_async=True, trim_blocks=True),
      {"a": T_CALL, "b": T_ERR}),
     (spec(sandboxed=True, extensions=["do", "loopcontrols"]), spec(sandboxed=True, extensions=["do", "loopcontrols"]),
@@ -881,10 +881,18 @@ def histories(maxlen):
                 yield list(body) + [last]
 
 
-def hist_cases(maxlen):
+def hist_cases(maxlen, extra=0):
+    pairs = list(hist_pairs())
     for ops in histories(maxlen):
-        for envs, tpl, oracle in hist_pairs():
+        for envs, tpl, oracle in pairs:
             yield {"kind": "hist", "envs": envs, "tpl": tpl, "ops": ops, "oracle": oracle}
+    if extra:
+        # one more step for the plain equal pair, the two-roots pair and the autoescape / async pairs
+        some = [pairs[0], pairs[1], pairs[len(EQUAL_PAIRS)], pairs[len(EQUAL_PAIRS) + 1]]
+        for ops in histories(maxlen + extra):
+            if len(ops) > maxlen:
+                for envs, tpl, oracle in some:
+                    yield {"kind": "hist", "envs": envs, "tpl": tpl, "ops": ops, "oracle": oracle}
 
 
 def _offsets(total, boundaries, dense):
@@ -952,7 +960,7 @@ def memc_cases(tier):
         for k in range(0, 72):
             yield {"kind": "memc", "envs": pairs[0], "tpl": tpl, "ignore": ignore, "timeout": 30,
                    "ops": [["L", 0, "a"], ["L", 1, "a"], ["L", 0, "a"]], "gets": ["ok"], "sets": [["trunc", k], "ok"]}
-    hs = [h for h in histories(3) if all(op[0] != "C" for op in h)]
+    hs = [h for h in histories(2 if tier == "quick" else 3) if all(op[0] != "C" for op in h)]
     for h in hs:
         for ignore in (True, False):
             for g in itertools.product(GET_B[:8], repeat=2):
@@ -1005,7 +1013,7 @@ def all_enumerated(tier):
     return itertools.chain(
         crash_cases(tier),
         damage_cases(tier),
-        hist_cases(4 if tier == "quick" else 5),
+        hist_cases(4, 0) if tier == "quick" else hist_cases(5, 1),
         memc_cases(tier),
     )
 
